@@ -82,7 +82,9 @@ func (m *model) getTok(addr []byte, key string) (*Token, error) {
 }
 
 func (m *model) setTok(addr []byte, key string, t *Token) {
-	if t != nil && (t.Value == nil || t.Value.Sign() == 0) && !isFrozenProps(t.Properties) {
+	// a balance is positive or the entry is absent; only an entry without metadata (a fungible entry,
+	// or the placeholder a single-NFT freeze leaves) may stay at zero to carry a frozen flag (C15)
+	if t != nil && (t.Value == nil || t.Value.Sign() == 0) && !(isFrozenProps(t.Properties) && t.Meta == nil) {
 		t = nil
 	}
 	m.tok[id(addr, key)] = t
@@ -194,6 +196,16 @@ func (m *model) credit(addr []byte, token []byte, nonce uint64, qty *big.Int, in
 		m.gaveUp = err.Error()
 		return false
 	}
+	// a zero-balance entry without metadata under an NFT key is the placeholder of a single-NFT
+	// freeze: it holds nothing, it only says "frozen"
+	var carried []byte
+	if t != nil && nonce > 0 && t.Meta == nil && (t.Value == nil || t.Value.Sign() == 0) {
+		if qty.Sign() > 0 && m.gate(addr, token, t, "destination") {
+			return false
+		}
+		carried = t.Properties
+		t = nil
+	}
 	if t != nil && !belongs(t, nonce) {
 		m.mustFail(P("C01", "C05", "C15"), "the destination entry under key %q of %x is not the entry of (%q,%d): %v", key, addr, token, nonce, t)
 		return false
@@ -202,7 +214,7 @@ func (m *model) credit(addr []byte, token []byte, nonce uint64, qty *big.Int, in
 		return false
 	}
 	if t == nil {
-		t = &Token{Value: big.NewInt(0)}
+		t = &Token{Value: big.NewInt(0), Properties: carried}
 		if incoming != nil {
 			t.Type = incoming.Type
 			t.Meta = CloneMeta(incoming.Meta)
